@@ -22,7 +22,7 @@ static int disj(void *a, unsigned long na, void *b, unsigned long nb) {
 '''
 VLA_SIZES = [1, 2, 7, 8, 9, 16, 17]
 ALLOCA_SIZES = [1, 8, 15, 16, 17, 33, 48]
-CONTEXTS = ["plain", "arg", "loop", "two", "push1", "push2", "push3", "vla2d", "sizeof_once", "struct_elem"]
+CONTEXTS = ["plain", "arg", "loop", "two", "push1", "push2", "push3", "vla2d", "vla_sub", "vla_ptrdiff", "sizeof_once", "struct_elem"]
 
 
 def cases():
@@ -31,10 +31,10 @@ def cases():
         for c in CONTEXTS:
             if kind == "vla" and c in ("arg", "push1", "push2", "push3"):
                 continue                      # a VLA is a declaration, it cannot sit inside an expression
-            if kind == "alloca" and c in ("vla2d", "sizeof_once", "struct_elem"):
+            if kind == "alloca" and c in ("vla2d", "vla_sub", "vla_ptrdiff", "sizeof_once", "struct_elem"):
                 continue
-            for n in sizes:
-                for m in ((1, 17) if c in ("two", "vla2d") else (0,)):
+            for n in (sizes if c != "vla_ptrdiff" else [7]):
+                for m in ((1, 17) if c in ("two", "vla2d") else (1, 3, 17) if c in ("vla_sub", "vla_ptrdiff") else (0,)):
                     out.append(dict(kind=kind, ctx=c, n=n, m=m))
     return out
 
@@ -76,6 +76,25 @@ def render_blk(i, c):
               " ok = chk(b, 16, 50) && chk(loc, 24, 5) && (char *)&a[n - 1][m - 1] - (char *)&a[0][0] == %d && sizeof a[0] == %d;" % ((n * m - 1) * 4, m * 4),
               " for (int x = 0; x < n; x++) for (int y = 0; y < m; y++) ok = ok && a[x][y] == 1000 * x + y && *(*(a + x) + y) == 1000 * x + y;",
               " al = AL(a, 4); dj = disj(a, sizeof a, b, 16) && disj(a, sizeof a, loc, 24);"]
+    elif cx == "vla_sub":
+        # rows of a 2-D VLA reached by SUBTRACTION from a pointer to a row: Level A's address of row x is
+        # a + x * (m * sizeof(int)) whatever the spelling: *(end - k), a + n - 1, &a[i] - k, p -= k, --p, end - a
+        rs = m * 4
+        f += [" char *b = alloca(16); use(b, 16, 50); int a[n][m]; int (*end)[m] = a + n; int (*p)[m];",
+              " for (int x = 0; x < n; x++) for (int y = 0; y < m; y++) a[x][y] = -1;",
+              " for (int k = 1; k <= n; k++) for (int y = 0; y < m; y++) (*(end - k))[y] = 1000 * (n - k) + y;",
+              " for (int x = 0; x < n; x++) for (int y = 0; y < m; y++) ok = ok && a[x][y] == 1000 * x + y;",
+              " ok = ok && (char *)(end - 1) == (char *)a + %d && (char *)(&a[n - 1] - (n - 1)) == (char *)a;" % ((n - 1) * rs),
+              " p = a + n - 1; ok = ok && (char *)p == (char *)a + %d; p -= n - 1; ok = ok && (char *)p == (char *)a;" % ((n - 1) * rs),
+              " p = end; --p; (*p)[m - 1] = 77; ok = ok && a[n - 1][m - 1] == 77; p = end; p--; ok = ok && (char *)p == (char *)a + %d;" % ((n - 1) * rs),
+              " (&a[n - 1] - (n - 1))[0][m - 1] = 88; ok = ok && a[0][m - 1] == 88; (end - n)[n - 1][0] = 99; ok = ok && a[n - 1][0] == 99;",
+              " ok = ok && chk(b, 16, 50) && chk(loc, 24, 5);",
+              " al = AL(a, 4); dj = disj(a, sizeof a, b, 16) && disj(a, sizeof a, loc, 24);"]
+    elif cx == "vla_ptrdiff":
+        # the difference of two pointers to rows counts rows (6.5.6p9)
+        f += [" int a[n][m]; int (*end)[m] = a + n; a[0][0] = 1;",
+              " r = (long)(end - a) * 10000 + (long)(&a[n - 1] - &a[0]) * 100 + (long)(&a[1] - end) + 50; e = %d;" % (n * 10000 + (n - 1) * 100 + (1 - n) + 50),
+              " ok = chk(loc, 24, 5);"]
     elif cx == "sizeof_once":
         f += [" int k = n; char *b = alloca(16); use(b, 16, 50); long a[k]; k = 99; r = sizeof a; e = %d;" % (8 * n),
               " for (int x = 0; x < n; x++) a[x] = -x - 1; ok = chk(b, 16, 50) && chk(loc, 24, 5);",
